@@ -4,6 +4,7 @@ import Driver.Parse
 import Adb.Model.History
 import Adb.Model.RegexCache
 import Adb.Model.Scriptlet
+import Adb.Spec.Pattern
 /-
   One-line-in / one-line-out driver.  Every answer has the form  `M=<model> S=<spec> D=<0|1>`:
   the output of the model that mirrors the code, the output of the reference semantics, and whether
@@ -45,6 +46,31 @@ def step (line : String) : String :=
       let important := imp == "1"
       ans (optHex (Removeparam.rewrittenUrl important url names))
           (optHex (Removeparam.spec important url names)) true
+    | _, _ => "bad-op"
+  -- a network rule from its text
+  | ["parse", l] => match unhex l with
+      | some line =>
+        let o := match Parse.parseNetwork line with
+          | .ok r => showRule r
+          | .error e => "ERR:" ++ e
+        ans o o (isAsciiStr line)
+      | none => "bad-op"
+  -- C02: one pattern-only rule against many requests: pmx <line> <req>*
+  | "pmx" :: l :: reqs =>
+    match unhex l, reqs.mapM parseRequest with
+    | some line, some qs =>
+      match Parse.parseNetwork line, Parse.parseAbstract line with
+      | .ok r, .ok a =>
+        let bits := qs.map (fun q =>
+          let m := r.matches q
+          let dom := Spec.inDomain a q.url q.hostname
+          -- the pattern reference, and the (trivial here) option gate of a rule without options
+          let s := Spec.refMatch a q.url q.hostname && checkOptions r q
+          (m, if dom then s else m, dom))
+        ans (String.ofList (bits.map (fun b => if b.1 then '1' else '0')))
+            (String.ofList (bits.map (fun b => if b.2.1 then '1' else '0')))
+            (bits.all (·.2.2))
+      | _, _ => ans "R" "R" true
     | _, _ => "bad-op"
   -- derived request fields
   | ["req", q] => match parseRequest q with
